@@ -1,4 +1,6 @@
 import Poly.Proofs.KVDigest
+import Poly.Model.KVStateRoot
+import Poly.Proofs.MerkleTree
 /-!
 # C11 — The block state-change digest depends only on the net write set
 
@@ -142,6 +144,66 @@ theorem digest_tx_grouping (H : List UInt8 → List UInt8) (txs₁ txs₂ : List
   have : (runBlock {} txs₁).mem.ents = (runBlock {} txs₂).mem.ents := by
     rw [e1, e2]; exact applyOps_congr Sorted.nil _ _ h
   exact ⟨this, by rw [this]⟩
+
+/-! ### The state Merkle root after a block (`delta_root_fn`)
+
+`predictedStateRoot` is `ExecuteResult.MerkleRoot`, `addStateRoot` is `AddStateMerkleTreeRoot`, both over the compact
+tree of `Poly.Model.Merkle` (C06's model, imported unchanged; `Inv H L t` is C06's invariant "t is the compact tree
+of the leaf hashes L"). -/
+
+open Poly.Model.Merkle Poly.Spec.RFC6962 in
+/-- One block on a well-formed state tree: `AddStateMerkleTreeRoot` never panics, the tree it stores is the
+compact tree of the old leaves plus the hashed digest, the root it records is the RFC 6962 tree hash of those
+leaves, and it is exactly the root `executeBlock` predicted (`MerkleRoot`). -/
+theorem state_root_step (H : List UInt8 → List UInt8) (L : List Hash) (t : CompactTree)
+    (hinv : Poly.Proofs.MerkleTree.Inv H L t) (digest : List UInt8) :
+    ∃ t', addStateRoot H t digest = .ok (t', mth H (L ++ [hashLeaf H digest])) ∧
+      Poly.Proofs.MerkleTree.Inv H (L ++ [hashLeaf H digest]) t' ∧
+      predictedStateRoot H t digest = .ok (mth H (L ++ [hashLeaf H digest])) := by
+  obtain ⟨t', st, ha, hi⟩ := Poly.Proofs.MerkleTree.inv_appendHash H L t (hashLeaf H digest) hinv
+  refine ⟨t', ?_, hi, Poly.Proofs.MerkleTree.inv_predict1 H L t digest hinv⟩
+  simp only [addStateRoot, appendLeaf, ha, Poly.Proofs.MerkleTree.inv_root H _ _ hi]
+
+open Poly.Model.Merkle Poly.Spec.RFC6962 in
+/-- **delta_root_fn.** The state root after a block is a function of (previous tree, net write set): two blocks
+whose successful writes have the same net effect, executed on the same tree, get the same predicted root, the same
+recorded root and the same stored tree — whatever the grouping, order or failed transactions. -/
+theorem delta_root_fn (H : List UInt8 → List UInt8) (t : CompactTree) (txs₁ txs₂ : List Tx)
+    (h : ∀ k, lastWrite (netWrites txs₁) k = lastWrite (netWrites txs₂) k) :
+    blockDigest H txs₁ = blockDigest H txs₂ ∧
+    predictedStateRoot H t (blockDigest H txs₁) = predictedStateRoot H t (blockDigest H txs₂) ∧
+    addStateRoot H t (blockDigest H txs₁) = addStateRoot H t (blockDigest H txs₂) := by
+  have : blockDigest H txs₁ = blockDigest H txs₂ := (digest_tx_grouping H txs₁ txs₂ h).2
+  exact ⟨this, by rw [this], by rw [this]⟩
+
+open Poly.Model.Merkle Poly.Spec.RFC6962 in
+/-- Over a whole chain: committing blocks `b₁ … bₙ` from the empty state tree never fails, and the root recorded at
+the last height is the RFC 6962 tree hash of the leaf hashes of their digests — so the recorded state roots depend
+only on the per-block net write sets. -/
+theorem state_root_after_blocks (H : List UInt8 → List UInt8) (blocks : List (List Tx)) :
+    ∃ t, (blocks.foldl (fun (acc : Except Err CompactTree) b =>
+            match acc with
+            | .error e => .error e
+            | .ok t => (addStateRoot H t (blockDigest H b)).map Prod.fst) (.ok emptyTree)) = .ok t ∧
+      root H t = .ok (mth H (blocks.map fun b => hashLeaf H (blockDigest H b))) := by
+  have gen : ∀ (bs : List (List Tx)) (L : List Hash) (t : CompactTree), Poly.Proofs.MerkleTree.Inv H L t →
+      ∃ t', (bs.foldl (fun (acc : Except Err CompactTree) b =>
+            match acc with
+            | .error e => .error e
+            | .ok t => (addStateRoot H t (blockDigest H b)).map Prod.fst) (.ok t)) = .ok t' ∧
+        Poly.Proofs.MerkleTree.Inv H (L ++ bs.map fun b => hashLeaf H (blockDigest H b)) t' := by
+    intro bs
+    induction bs with
+    | nil => intro L t hi; exact ⟨t, rfl, by simpa using hi⟩
+    | cons b r ih =>
+      intro L t hi
+      obtain ⟨t1, h1, h2, _⟩ := state_root_step H L t hi (blockDigest H b)
+      obtain ⟨t', h3, h4⟩ := ih _ t1 h2
+      refine ⟨t', ?_, by simpa using h4⟩
+      simp only [List.foldl_cons, h1, Except.map]
+      exact h3
+  obtain ⟨t, h1, h2⟩ := gen blocks [] emptyTree (Poly.Proofs.MerkleTree.inv_empty H)
+  exact ⟨t, h1, by simpa using Poly.Proofs.MerkleTree.inv_root H _ _ h2⟩
 
 /-! Non-vacuity: two different sequences with the same net effect, and a sequence with a different one. -/
 example :
